@@ -192,7 +192,7 @@ func init() {
 	// C16: concurrent writers on two ledgers of one bucket, on shared and on disjoint accounts, with
 	// writes that fail and roll back (and so burn sequence values).
 	register(Profile{Property: "C16", Name: "ids", Gen: func(r *RNG, seed uint64, tier string) (*Scenario, *ExploreCfg) {
-		sc := &Scenario{Property: "C16", Profile: "ids", Knobs: randomKnobs(r), Checks: []string{"ids", "logs-match-ops"}, Params: map[string]string{}}
+		sc := &Scenario{Property: "C16", Profile: "ids", Knobs: randomKnobs(r), Checks: []string{"ids", "logs-match-ops", "no-5xx-in-fault-free-runs"}, Params: map[string]string{}}
 		g := &gen{r: r, sc: sc}
 		ledgers := []string{"l1", "l2"}
 		for _, l := range ledgers {
